@@ -5,6 +5,7 @@ pub mod c08;
 pub mod c10;
 pub mod c11;
 pub mod c12;
+pub mod c14;
 
 use crate::exec::Engine;
 
@@ -17,6 +18,7 @@ pub fn get(prop: &str) -> Option<&'static dyn Engine> {
         "C10" => &c10::C10,
         "C11" => &c11::C11,
         "C12" => &c12::C12,
+        "C14" => &c14::C14,
         _ => return None,
     })
 }
